@@ -432,7 +432,40 @@ def run(ctx):
         if dd:
             ctx.bad(R, cls + '|hex', dd[0], '%s::hex() renders through format_data_string without SKIP_STRINGS: that formatter switches to a quoted-string form whenever every byte is printable, so some digests are not rendered as hex' % cls)
         elif len(pc) != 1 or string_lit(call_args(pc[0])[0]) != b'%08X' * nwords:
-            ctx.undecided(R, cls + '|hex', h, '%s::hex() is not a single string_printf of %d %%08X fields: rendering not decided by this rule' % (cls, nwords))
+            # another form: decide it by constant evaluation (E-TABLE) on states whose words have
+            # leading zero nybbles, are zero, or have the top bit set
+            from peval import PEval, Rec, Lit as PLit, Str as PStr, Undecided as PUnd, Fault as PFault
+            pool = [0x00000000, 0x00000001, 0x0ABCDEF0, 0xFFFFFFFF, 0x000A0B0C, 0x80000000, 0x12345678, 0x00F00F00]
+            verdict = None
+            for rot in range(3):
+                ws = [pool[(i_ * 3 + rot) % len(pool)] for i_ in range(nwords)]
+                this = Rec()
+                if cls == 'MD5':
+                    for nm_, w_ in zip(('a0', 'b0', 'c0', 'd0'), ws):
+                        this.f[nm_] = w_
+                    want = ''.join('%08X' % int.from_bytes(w_.to_bytes(4, 'little'), 'big') for w_ in ws)
+                else:
+                    this.f['h'] = PLit(list(ws))
+                    want = ''.join('%08X' % w_ for w_ in ws)
+                pe = PEval([u], max_depth=8)
+                try:
+                    got = pe.call_with(h, [], this=this)
+                except PUnd as e_:
+                    verdict = ('undecided', str(e_))
+                    break
+                except PFault as e_:
+                    verdict = ('bad', 'evaluation faults: %s' % e_)
+                    break
+                gb = bytes(got.b).decode('latin1') if isinstance(got, PStr) else None
+                if gb != want:
+                    verdict = ('bad', 'for the state %s it renders %r; the digest in hex is %r' % (['%08X' % w_ for w_ in ws], gb, want))
+                    break
+            if verdict is None:
+                ctx.ok(R, cls + '|hex', h, 'evaluated on 3 states with leading-zero / zero / top-bit words: %d x 8 hex digits in digest byte order' % nwords)
+            elif verdict[0] == 'bad':
+                ctx.bad(R, cls + '|hex', h, '%s::hex(): %s' % (cls, verdict[1]))
+            else:
+                ctx.undecided(R, cls + '|hex', h, '%s::hex() is not a single string_printf of %d %%08X fields and could not be evaluated (%s)' % (cls, nwords, verdict[1]))
         else:
             ctx.check(okh, R, cls + '|hex', h, '%d x %%08X, %s' % (nwords, 'byte-swapped words (little-endian digest)' if swap else 'words as stored (big-endian digest)'), '%s::hex() rendering changed (byte order of the words must match bin())' % cls)
 
